@@ -27,6 +27,9 @@ def load_rules(prop):
         if exc.name == f"jcheck.props.{prop.lower()}":
             return False
         raise
+    from .props.generic import register
+
+    register(prop)
     return True
 
 
@@ -44,8 +47,11 @@ def check_property(prop, tier, seed, only_rule=None, overlay=None, quiet=False, 
     except AnalysisError as exc:
         out(f"ANALYSIS-ERROR property={prop} rule={exc.rule} reason={exc.reason}")
         return 2, []
-    rules = [r for r in RULES[prop] if (only_rule is None or r.id == only_rule) and (tier == "thorough" or r.tier == "quick")]
+    generic = only_rule is not None and only_rule.endswith(".G1")  # its scope is what the other rules analysed: run them, report it
+    rules = [r for r in RULES[prop] if (only_rule is None or generic or r.id == only_rule) and (tier == "thorough" or r.tier == "quick")]
     outcomes = [run_rule(rd, ctx) for rd in rules]
+    if generic:
+        outcomes = [o for o in outcomes if o.rd.id == only_rule]
     extra = {}
     if tier == "thorough" and overlay is None and only_rule is None:
         from .thorough import run_thorough
